@@ -11,6 +11,7 @@ import (
 	"verifharness/internal/enum"
 	"verifharness/internal/lx"
 	"verifharness/internal/model"
+	"verifharness/internal/vclock"
 	"verifharness/internal/vf"
 )
 
@@ -337,6 +338,19 @@ func init() {
 					}
 					if got != want {
 						r.Violation("= disagrees with structural equality on deeply nested values", fmt.Sprintf("%s nested %d deep, %s: got %v, want %v", kind, d, what, got, want))
+					}
+				}
+				// under a context that ends while = is comparing: the evaluation returns true or a timeout
+				// error, never false
+				if d >= 1500 {
+					for _, limit := range []int{2, 3, 4, 5, 6, 8, 12} {
+						res, err, p := lx.Eval(vclock.NewPollCtx(limit), callForm("=", q(a), q(b)), env)
+						r.Exec(1)
+						if p != nil {
+							r.Violation("= panics under a context that ends", fmt.Sprintf("%s nested %d deep, context ending at poll %d: %s", kind, d, limit, oneLineC14(p.String())))
+						} else if err == nil && res != true {
+							r.Violation("= of equal values is not true under a context that ends (and no error is returned)", fmt.Sprintf("%s nested %d deep, context ending at poll %d: result %v", kind, d, limit, res))
+						}
 					}
 				}
 				check("a value against itself", a, a, true)
